@@ -23,6 +23,8 @@ from .. import lexrec, sq
 from . import c01
 
 PROP = "C07"
+VCTX = {"templater": {"jinja": {"context": {"x": 1, "t": "tt", "r": [1, 2], "y": 0, "b": 0, "include_deleted_rows": True,
+                                            "is_incremental_run": True, "target_name": "dev"}}}}
 
 
 def rectify_released() -> bool:
@@ -63,8 +65,9 @@ def rectify_case(rep: Report, rec: Dict[str, Any]) -> None:
 
 def gen_variant_templates(rnd: random.Random, n: int) -> List[str]:
     """Nested if/elif/else/for templates with unreached branches (these make the templater emit variants)."""
-    conds = ["x > 5000000", "false", "y", "not true", "1 == 2", "true", "z is defined"]
-    lits = [" a,", " b{{ x }},", "\n  c,", " {{ t }} ", " d", ",e ", "\n", " 1 AS f,"]
+    conds = ["x > 5000000", "false", "y", "not true", "1 == 2", "true", "z is defined",
+             "include_deleted_rows and not is_incremental_run", "target_name == 'production_warehouse'", "b"]
+    lits = [" a,", " b{{ x }},", "\n  c,", " {{ t }} ", " d", ",e ", "\n", " 1 AS f,", "\n  2  AS g,", " h  ,"]
 
     def tag(body: str) -> str:
         """A block tag with randomly chosen whitespace control."""
@@ -144,7 +147,7 @@ def run(tier: str, seed: int) -> int:
                 continue
             cfgs = {k: v for k, v in (rc["configs"] or {}).items() if k in ("templater",)}
             items.append((rc["sql"], core.get("dialect", "ansi"), tmpl, f"<rule {rc['id']}>", f"r{i}", {"configs": cfgs} if cfgs else None))
-    vctx = {"templater": {"jinja": {"context": {"x": 1, "t": "tt", "r": [1, 2], "y": 0}}}}
+    vctx = VCTX
     for i, text in enumerate(gen_variant_templates(rnd, 300 if quick else 4000)):
         items.append((text, "ansi", "jinja", f"<gen {i}>", f"g{i}", {"configs": vctx}))
     items += c01.other_templater_items(rnd, 150 if quick else 1500)
